@@ -20,6 +20,7 @@ type Scenario struct {
 	Init      string     `json:"init"` // empty | prefix | unrelated | diverged | midflip
 	Large     bool       `json:"large"`
 	Pre       [][]string `json:"pre"`        // leader history before FOLLOW
+	Post      [][]string `json:"post"`       // init=boundary: written after the record that ends exactly at byte checksumsz
 	PrefixCut float64    `json:"prefix_cut"` // init=prefix: fraction of the leader's records copied into the follower
 	Unrelated [][]string `json:"unrelated"`  // init=unrelated: commands run on the follower before FOLLOW
 	Steps     []Step     `json:"steps"`
@@ -170,6 +171,12 @@ func genScenario(r *rand.Rand, i int, large bool) Scenario {
 		sc.Steps = append(sc.Steps, s)
 	}
 	return sc
+}
+
+func boundaryScenario(r *rand.Rand, name string) Scenario {
+	return Scenario{Name: name, Init: "boundary", Large: true, PrefixCut: 0.9 + 0.1*float64(r.Intn(2)),
+		Pre: append(genCmds(r, 3), bigCmds(r, 380<<10, "L")...), Post: bigCmds(r, 150<<10+r.Intn(200<<10), "M"),
+		Steps: []Step{{Fault: "follow", Stall: 0.5}, {Fault: "restart-kill", Writes: genCmds(r, 3), Stall: 0.5}}}
 }
 
 // corpus: the witnesses of finding F9 and hand-written cases, run first on every tier.
